@@ -56,7 +56,7 @@ class FileConfig:
         self.data[key] = try_conv(value, CONVERTERS)
 
     def __delitem__(self, key):
-        if key in self.data:
+        if key in self.data.maps[0]:
             del self.data[key]
 
     def __len__(self):
